@@ -194,7 +194,8 @@ namespace RecInt
         int posB = (b >= 0)? 1 : -1;
 
         if (posA != posB) return posA;
-        else return static_cast<int>(posA * cmp(a.Value, b));
+        else if (posA > 0) return cmp(a.Value, b);
+        else return cmp(a, rint<K>(b));
     }
 }
 
